@@ -1,5 +1,7 @@
 /-! C10 (c): `ClientConn.handlers` — the FIFO of callbacks awaiting responses, under `ClientConn.mux`
-(nbhttp/client_conn.go `Do`, `onResponse`, `CloseWithError`, `closeWithErrorWithoutLock`, `Reset`).
+(nbhttp/client_conn.go `Do`, `onResponse`, `closeByConn`, `CloseWithError`, `closeWithErrorWithoutLock`,
+`Reset`; as repaired: `onResponse` and the parser's close notification carry the connection they come
+from and are ignored unless that is still `c.conn`).
 
 One model step = one critical section of `c.mux`.  Requests are numbered in the order of the `Do`
 calls.  A connection ("epoch") is dialled by the first `Do` after `conn == nil`.  Ghost state records,
@@ -28,7 +30,8 @@ structure St where
 inductive Op where
   | do_ (dialOk sendOk : Bool)        -- ClientConn.Do
   | onResponse (epoch : Nat) (expired : Bool)   -- the parser of `epoch` completed a response
-  | closeAll                          -- CloseWithError (user, parser close, read error, engine stop)
+  | closeAll                          -- CloseWithError / Close called by the user (or Client.Close)
+  | connClosed (epoch : Nat)          -- the connection `epoch` ended: its parser calls closeByConn
   | reset                             -- Reset (Client.Do calls it before every Do)
   deriving Repr, DecidableEq
 
@@ -71,7 +74,8 @@ def step (s : St) : Op → St
         if !dialOk then failAll s1
         else if sendOk then wrote (dial s1) s.sent.length id else failAll (dial s1)
   | .onResponse e expired =>
-    if !s.closed then
+    -- `!c.closed && c.conn == conn && len(c.handlers) > 0`
+    if !s.closed && s.conn == some e then
       match s.handlers with
       | h :: rest =>
         let s2 := pop (deliver s e) h rest (label s e)
@@ -81,6 +85,9 @@ def step (s : St) : Op → St
     else deliver s e
   | .closeAll =>
     if !s.closed then failAll { s with closed := true } else s
+  | .connClosed e =>
+    -- `closeByConn`: the parser of connection e was closed (peer closed, read error, deadline)
+    if !s.closed && s.conn == some e then failAll { s with closed := true } else s
   | .reset =>
     if s.closed then { s with conn := none, handlers := [], closed := false } else s
 
